@@ -296,7 +296,12 @@ def run_check(modname: str, pid: str, tier: str, seed: int, nshards: int = 16) -
             else:
                 viols.setdefault(v.bucket, v.export())
 
-    floors = getattr(mod, 'FLOORS', {}).get(tier, {})
+    all_floors = getattr(mod, 'FLOORS', {})
+    if tier == 'thorough' and not getattr(mod, 'FLOORS_EXPLICIT', False):
+        # the thorough tier generates roughly ten times the quick tier: demand five times its class counts
+        floors = {k: 5 * v for k, v in all_floors.get('quick', {}).items()}
+    else:
+        floors = all_floors.get(tier, {})
     floor_fail = [f'{k}: {classes.get(k, 0)} < {n}' for k, n in floors.items() if classes.get(k, 0) < n]
 
     wall = time.time() - t0
